@@ -5,6 +5,7 @@ import os
 import time
 
 from .. import common as C
+from . import c12m
 
 PROPS = ["theories/Props/C12.v"]
 
@@ -454,6 +455,7 @@ def run(ctx):
     stats.update({"validated:" + k: v for k, v in hyp.items()})
     if coqchk:
         ctx.notes.append(coqchk)
+    mcov = c12m.stage(ctx)   # end-to-end half against the in-process server
     cov = C.proof_coverage(
         pr, "make -f Makefile.coq theories/Props/C12.vo (coqc 8.16.1) in /verif/coq", TRUSTED,
         {"evaluations": evals, "distinct_nontrivial": len(nontrivial),
@@ -466,6 +468,7 @@ def run(ctx):
          "projection": "per Store ok/err and the bytes of the file; per Load the class ok/not-found/other error/panic and on ok key, hash, salt, host; "
                        "per NewMTProto error or (encrypted, key, hash, salt, address); filepath.Dir of the path; utf8 validity of the host. "
                        "Error texts, timestamps, pointers not compared"})
+    cov.update(mcov)
     return C.finish(ctx, "proof", cov, ASSUME)
 
 
